@@ -833,9 +833,11 @@ func (c *Ctx) guardedInit(st *State, fn *ssa.Function) {
 		}()
 		c.started = time.Now()
 		c.unrolled = 0
+		c.steps = 0
 		c.inlineCall(st, fn, nil, nil, token.NoPos)
 		return true
 	}()
+	c.steps = 0
 	if os.Getenv("GOVC_VERBOSE") != "" {
 		fmt.Fprintf(os.Stderr, "    %s: %.1fs ok=%v unrolled=%d\n", shortName(fullName(fn)), time.Since(c.started).Seconds(), ok, c.unrolled)
 	}
